@@ -87,6 +87,7 @@ class ConnRun:
             keepalive=cfg["K"] / 1000.0,
             dev_name="dev",
             naddr=cfg.get("naddr", 1),
+            debug=bool(cfg.get("debug")),
         )
         self.loop = self.w.loop
         self.rows: list[dict] = []
